@@ -19,6 +19,7 @@ import (
 	"github.com/ipfs/go-cid"
 	"github.com/ipfs/go-unixfsnode"
 	"github.com/ipfs/go-unixfsnode/data"
+	quickbuilder "github.com/ipfs/go-unixfsnode/data/builder/quick"
 	"github.com/ipfs/go-unixfsnode/file"
 	dagpb "github.com/ipld/go-codec-dagpb"
 	"github.com/ipld/go-ipld-prime"
@@ -965,12 +966,13 @@ func runBuildCase(rep *Report, in FileInput, cf *CaseFile, fail func(prop, sig, 
 	}
 }
 
-var cfUnsized *CaseFile
+var cfUnsized, cfTransient *CaseFile
 
 func scnFiles(rep *Report, rng *Rng, tier string, outdir string) {
 	cfB := NewCaseFile(rep, outdir, "cases_fbuild", "UV.Corr.Files", "mismatches_fbuild", 25)
 	cfUnsized = NewCaseFile(rep, outdir, "cases_ufread", "UV.Corr.Files", "mismatches_ufread", 40)
-	defer func() { cfUnsized = nil }()
+	cfTransient = NewCaseFile(rep, outdir, "cases_tread", "UV.Corr.Files", "mismatches_tread", 40)
+	defer func() { cfUnsized, cfTransient = nil, nil }()
 	cfRs := map[string]*CaseFile{}
 	for _, m := range []string{"history", "range", "order", "faults"} {
 		cfRs[m] = NewCaseFile(rep, outdir, "cases_fread_"+m, "UV.Corr.Files", "mismatches_fread_loads", 40)
@@ -978,7 +980,7 @@ func scnFiles(rep *Report, rng *Rng, tier string, outdir string) {
 	if tier == "search" {
 		cfB = nil
 		cfRs = map[string]*CaseFile{}
-		cfUnsized = nil
+		cfUnsized, cfTransient = nil, nil
 	}
 	buildProps := []string{"C01", "C07", "C10", "C11"}
 	for _, p := range buildProps {
@@ -1068,8 +1070,40 @@ func scnFiles(rep *Report, rng *Rng, tier string, outdir string) {
 		}
 		addBuild(FileInput{Width: 2 + rng.Intn(3), Chunker: ch, Size: sz, Seed: uint64(rng.Intn(256))})
 	}
+	// builds must not depend on what the process built before: a content-defined chunking whose first W chunks have the
+	// mean size of the first one (but are not all equal), right after / before the fixed-size file with W chunks of
+	// exactly that size (the same child count and the same total under the root)
+	{
+		found := 0
+		for seed := uint64(0); seed < 6000 && found < 3; seed++ {
+			content := synthContent(seed, 150)
+			lens := chunkLens(content, "rabin-16-32-64")
+			for _, w := range []int{3, 4} {
+				if len(lens) < w {
+					continue
+				}
+				sum, same := 0, true
+				for _, l := range lens[:w] {
+					sum += l
+					same = same && l == lens[0]
+				}
+				if same || sum != w*lens[0] {
+					continue
+				}
+				found++
+				fixed := FileInput{Width: w, Chunker: fmt.Sprintf("size-%d", lens[0]), Size: w * lens[0], Seed: seed + 1}
+				cd := FileInput{Width: w, Chunker: "rabin-16-32-64", Size: 150, Seed: seed}
+				addBuild(fixed)
+				addBuild(cd)
+				addBuild(fixed)
+				break
+			}
+		}
+		rep.Dist("C07", fmt.Sprintf("mean-equals-first sequences=%d", found))
+	}
 	cfBFlush(cfB)
 	runNoSizesFiles(rep)
+	runQuickSizes(rep)
 
 	// ---- read histories, ranges, orders, faults ----
 	readProps := map[string]string{
@@ -1199,6 +1233,11 @@ func scnFiles(rep *Report, rng *Rng, tier string, outdir string) {
 			}
 		}
 		fc.st.Unavailable = map[string]uint64{}
+	}
+	// ranges through a link system whose NodeReifier is Reify (every loaded block arrives as a UnixFS node)
+	for _, ab := range [][2]int{{0, 1}, {9, 11}, {20, 21}, {36, 37}} {
+		addRead(FileInput{Width: 3, Chunker: "size-2", Size: 37, Seed: 41, Mode: "range", Opener: "nodereifier",
+			Ops: []FOp{{Kind: "seek", Off: int64(ab[0]), Whence: io.SeekStart}, {Kind: "read", K: ab[1] - ab[0]}}})
 	}
 	// storage that fails once per block and recovers: readers asked again (every single block; several at once)
 	for si, s := range []fspec{{w: 2, k: 3, size: 40}, {w: 3, k: 2, size: 37}, {w: 2, k: 1, size: 9}, {w: 4, k: 5, size: 100}} {
@@ -1464,6 +1503,9 @@ func scnFiles(rep *Report, rng *Rng, tier string, outdir string) {
 	if cfUnsized != nil {
 		cfUnsized.Flush()
 	}
+	if cfTransient != nil {
+		cfTransient.Flush()
+	}
 }
 
 func cfBFlush(c *CaseFile) {
@@ -1598,13 +1640,30 @@ func runTransient(rep *Report, in FileInput) {
 	}
 	remaining := map[string]int{}
 	kinds := map[string]uint64{}
+	var budgetIdx []int // one preorder index per distinct block with a budget, in the order given
 	for _, f := range in.Faults {
 		if f[0] > 0 && f[0] < len(fc.order) {
 			k := fc.order[f[0]].Cid.KeyString()
+			if remaining[k] == 0 {
+				kinds[k] = uint64(1 + f[1]%2)
+				budgetIdx = append(budgetIdx, f[0])
+			}
 			remaining[k]++
-			kinds[k] = uint64(1 + f[1]%2)
 		}
 	}
+	var budgetTerms []string
+	for _, i := range budgetIdx {
+		k := fc.order[i].Cid.KeyString()
+		budgetTerms = append(budgetTerms, fmt.Sprintf("(%d, %d, %d)", i, remaining[k], kinds[k]))
+	}
+	var ksTerms, obsTerms []string
+	seekOff, modelled := int64(0), len(in.Ops) > 0 && in.Ops[0].Kind == "seek" && in.Ops[0].Whence == io.SeekStart
+	defer func() {
+		// compared with File/Transient.v (one reader, Seek(off) then Reads, budget of failing requests per block)
+		if cfTransient != nil && modelled && len(ksTerms) > 0 {
+			cfTransient.Add(fmt.Sprintf("mk_tread %s %s %s %s %s", fc.srcTerm, coqList(budgetTerms), coqZ(seekOff), coqList(ksTerms), coqList(obsTerms)), in)
+		}
+	}()
 	fc.st.ReadHook = func(c cid.Cid) error {
 		if remaining[c.KeyString()] > 0 {
 			remaining[c.KeyString()]--
@@ -1633,6 +1692,7 @@ func runTransient(rep *Report, in FileInput) {
 			o := guard(func() error { var err error; got, err = r.Seek(op.Off, op.Whence); return err })
 			if o.Class == "ok" {
 				pos = got
+				seekOff = got
 			} else if o.Class == "panic" {
 				fail("C13", "transient-seek-panic", "Seek panicked while storage was failing", "offset or error", "panic")
 				return
@@ -1643,8 +1703,11 @@ func runTransient(rep *Report, in FileInput) {
 				got, o := readFull(r, op.K)
 				if o.Class == "panic" {
 					fail("C13", "transient-read-panic", "Read panicked while storage was failing", "bytes or error", "panic")
+					modelled = false
 					return
 				}
+				ksTerms = append(ksTerms, coqZ(int64(op.K)))
+				obsTerms = append(obsTerms, fmt.Sprintf("(%s, %s)", coqBytes(got), coqStatus(o)))
 				end := pos + int64(len(got))
 				if pos > n || end > n || !bytes.Equal(got, fc.content[pos:end]) {
 					for _, p := range []string{"C12", "C01", "C04"} {
@@ -1758,4 +1821,52 @@ func sizedHandFile(st *Store, kind string) (cid.Cid, []byte, bool) {
 		return sizedNode(kids, lens, false, nil), content, true
 	}
 	return cid.Undef, nil, false
+}
+
+// runQuickSizes: the quick builder's nodes report, and its directories record, the cumulative sizes (C11) - also for
+// files of more than one chunk
+func runQuickSizes(rep *Report) {
+	in := map[string]interface{}{"mode": "quick-builder-sizes"}
+	fail := func(sig, what string, exp, got interface{}) { rep.Fail("C11", "files/"+sig, what, in, exp, got) }
+	st := NewStore()
+	var cum func(n *DNode) uint64
+	cum = func(n *DNode) uint64 {
+		t := uint64(len(st.Blocks[n.Cid.KeyString()]))
+		for _, l := range n.Links {
+			c := cum(l.Target)
+			if l.Tsize == nil || uint64(*l.Tsize) != c {
+				fail("quick-tsize", "a link written by the quick builder does not carry the cumulative size of its target", c, fmt.Sprint(l.Tsize))
+			}
+			t += c
+		}
+		return t
+	}
+	check := func(what string, n quickbuilder.Node) {
+		sz, err := n.Size()
+		must(err)
+		dag := dumpDAG(st, n.Link().(cidlink.Link).Cid, map[string]*DNode{})
+		if c := cum(dag); uint64(sz) != c {
+			fail("quick-size", "the size a quick-builder node reports is not the cumulative size of its DAG", c, fmt.Sprint(what, ": ", sz))
+		}
+	}
+	o := guard(func() error {
+		return quickbuilder.Store(st.LinkSystem(), func(b *quickbuilder.Builder) error {
+			small := b.NewBytesFile([]byte("small file"))
+			empty := b.NewBytesFile(nil)
+			big := b.NewBytesFile(synthContent(11, 2*262144+77)) // three chunks under one root
+			edge := b.NewBytesFile(synthContent(12, 262144))     // exactly one chunk
+			over := b.NewBytesFile(synthContent(13, 262145))
+			d1 := b.NewMapDirectory(map[string]quickbuilder.Node{"small": small, "big": big, "empty": empty})
+			d2 := b.NewMapDirectory(map[string]quickbuilder.Node{"inner": d1, "edge": edge, "over": over, "again": big})
+			for name, n := range map[string]quickbuilder.Node{"small": small, "empty": empty, "big": big, "edge": edge, "over": over, "d1": d1, "d2": d2} {
+				check(name, n)
+			}
+			return nil
+		})
+	})
+	if o.Class != "ok" {
+		fail("quick-error", "the quick builder failed on a healthy store", "ok", o.Class)
+	}
+	rep.Count("C11", "quick-builder-sizes", true, in)
+	rep.Dist("C11", "quick-builder")
 }
